@@ -38,6 +38,9 @@ checks = {
  "C20": (SEQ, "exploration", "runtime monitoring: per-step discarded() deltas against the model, forever-discarded range tracking",
          "discarded() may never decrease (except clear); increase_discarded(n) adds n; Freelist::None non-top releases and too-small releases add their size and the range is remembered as never reusable (any later handle intersecting it is a violation); discard_freelist returns the sum of the snapshot's data sizes, adds exactly that, leaves the list empty.",
          "Counter overflow is outside the statement and not generated.", "§4 C20"),
+ "C14": ("E-BUF", "exploration", "runtime monitoring: whole-arena before/after images around every buffer call over a type x order x fill x capacity matrix (release, overflow-checked, ASan)",
+         "Every put_*/write_*/put_slice/put/put_aligned/set_len/align_to/get_*/varint call of BytesRefMut and BytesMut is executed at every fill level of buffers of capacity 0..40 (fresh, recycled with offset != buffer_offset, aligned with padding, flush against the arena end) on both flavours; the oracle compares return value, len() and a byte image of the whole arena before/after, so a byte touched outside [offset, offset+capacity) inside the arena is seen; put->get round-trips for every type and order; LEB128 round-trips on empty buffers.",
+         "Integer values are 5 per case (0, 1, MAX, MIN, byte-distinct xor random); overflow past the arena end is visible to ASan (thorough) or as a child crash.", "§4 C14"),
 }
 
 not_applicable = {
@@ -47,7 +50,6 @@ not_applicable = {
  "C07": "check under construction (bounded-progress monitor); not yet claimed",
  "C09": "check under construction (file mutation matrix); not yet claimed",
  "C12": "check under construction (vector-clock monitor + TSan/Miri); not yet claimed",
- "C14": "check under construction (buffer put/get matrix); not yet claimed",
  "C15": "check under construction (arena reader sweep); not yet claimed",
  "C19": "check under construction (checksum sweep); not yet claimed",
 }
@@ -66,6 +68,7 @@ def main():
       },
       "engines": [
         {"name": "E-SEQ", "path": "harness/src/seq.rs", "serves_properties": [k for k,v in checks.items() if v[0]==SEQ], "kind_free_text": "single-threaded history fuzzer: shadow map + sequential reference model + lock-step differential runners; 16 child processes; release, overflow-checked and ASan builds"},
+        {"name": "E-BUF", "path": "harness/src/bufs.rs", "serves_properties": ["C14"], "kind_free_text": "buffer call matrix with whole-arena byte images"},
       ],
       "checks": [],
       "not_applicable": [{"property_id":k,"reason":v} for k,v in sorted(not_applicable.items()) if k not in checks],
